@@ -49,59 +49,72 @@ def run(chk, replay=None):
         trees = [X.from_json(t) for t in r['trees']]
     else:
         trees = X.systematic()
-        n, dmax = (3000, 5) if chk.tier == 'quick' else (40000, 8)
+        n, dmax = (3000, 5) if chk.tier == 'quick' else (25000, 7)
         trees += [X.gen(rng, rng.randint(1, dmax)) for _ in range(n)]
-    codes = {}
-    disagree, flagbad = [], []
-    for pr in ('C', 'PY'):
-        lines = ['(expr %s %s)' % (pr, X.sexp(t)) for t in trees]
-        impl = run_lines_parallel(hx, [], lines)[1]
-        model = run_lines_parallel(drv, ['expr'], lines)[1] if os.path.exists(drv) else [''] * len(lines)
-        codes[pr] = [dec(i) if i.startswith('#') else None for i in impl]
-        for t, i, m in zip(trees, impl, model):
-            mt = m.split()
-            if not mt or mt[0] != i:
-                disagree.append((pr, t, i, m))
-            elif mt[1:] != ['ex=1', 'ok=1', 'lex=1']:
-                flagbad.append((pr, t, i, m))
-    # execution oracle
-    wd = tempfile.mkdtemp(prefix='c03-')
-    try:
-        vc = X.run_c([c or '0' for c in codes['C']], helpers['C'], wd)
-    finally:
-        shutil.rmtree(wd, ignore_errors=True)
-    vp = X.run_python([c or '0' for c in codes['PY']], helpers['PY'])
-    orafail = []
-    nval = 0
+    def evaluate(trees):
+        """run both ties on the trees: returns (codes, disagreements, bad model flags, oracle failures, value count)"""
+        codes = {}
+        disagree, flagbad = [], []
+        for pr in ('C', 'PY'):
+            lines = ['(expr %s %s)' % (pr, X.sexp(t)) for t in trees]
+            impl = run_lines_parallel(hx, [], lines)[1]
+            model = run_lines_parallel(drv, ['expr'], lines)[1] if os.path.exists(drv) else [''] * len(lines)
+            codes[pr] = [dec(i) if i.startswith('#') else None for i in impl]
+            for t, i, m in zip(trees, impl, model):
+                mt = m.split()
+                if not mt or mt[0] != i:
+                    disagree.append((pr, t, i, m))
+                elif mt[1:] != ['ex=1', 'ok=1', 'lex=1']:
+                    flagbad.append((pr, t, i, m))
+        wd = tempfile.mkdtemp(prefix='c03-')
+        try:
+            vc = X.run_c([c or '0' for c in codes['C']], helpers['C'], wd)
+        finally:
+            shutil.rmtree(wd, ignore_errors=True)
+        vp = X.run_python([c or '0' for c in codes['PY']], helpers['PY'])
+        orafail = []
+        nval = 0
+        for ti, t in enumerate(trees):
+            ref = X.reference(t)
+            for pr, vals in (('C', vc[ti]), ('PY', vp[ti])):
+                code = codes[pr][ti]
+                if code is None:
+                    orafail.append((pr, t, 'the generator crashed', None, None)); continue
+                bad = 0
+                for r, v in zip(ref, vals):
+                    nval += 1
+                    if v == 'syntax':
+                        bad = 99; break
+                    if r == 'undef' or v == 'undef' or v == 'crash' or isinstance(v, str):
+                        hist['undefined_skipped'] += 1
+                    elif X.same(r, v):
+                        hist['agree'] += 1
+                    else:
+                        bad += 1
+                if bad >= 2 or bad == 99 or (bad == 1 and X.discrete(t)):
+                    orafail.append((pr, t, code, ref, vals))
+                elif bad == 1:
+                    hist['numerically_fragile_discarded'] += 1
+        return codes, disagree, flagbad, orafail, nval
     hist = {'agree': 0, 'undefined_skipped': 0, 'numerically_fragile_discarded': 0}
-    for ti, t in enumerate(trees):
-        ref = X.reference(t)
-        for pr, vals in (('C', vc[ti]), ('PY', vp[ti])):
-            code = codes[pr][ti]
-            if code is None:
-                orafail.append((pr, t, 'the generator crashed', None, None)); continue
-            bad = 0
-            for r, v in zip(ref, vals):
-                nval += 1
-                if v == 'syntax':
-                    bad = 99; break
-                if r == 'undef' or v == 'undef' or v == 'crash' or isinstance(v, str):
-                    hist['undefined_skipped'] += 1
-                elif X.same(r, v):
-                    hist['agree'] += 1
-                else:
-                    bad += 1
-            if bad >= 2 or bad == 99 or (bad == 1 and X.discrete(t)):
-                orafail.append((pr, t, code, ref, vals))
-            elif bad == 1:
-                hist['numerically_fragile_discarded'] += 1
+    codes, disagree, flagbad, orafail, nval = evaluate(trees)
+    if orafail and not replay:
+        # shrink: the smallest failing subtrees of the smallest failures
+        orafail.sort(key=lambda x: X.size(x[1]))
+        subs = []
+        for _, t, _, _, _ in orafail[:5]:
+            X.subtrees(t, subs)
+        subs = [t for t in {X.sexp(t): t for t in subs}.values()]
+        if subs:
+            _, _, _, of2, _ = evaluate(subs)
+            orafail = of2 + orafail
     edges, types = set(), set()
     for t in trees:
         X.edges_in(t, edges); X.types_in(t, types)
     chk.cov.update(evaluations=2 * len(trees), distinct_nontrivial=len(set(map(X.sexp, trees))),
                    rule='expression trees in the shapes analyseNode builds: every parent operator over every kind of operand at depth 2 (systematic), then random trees of depth <= %d over the whole operator set; '
                         'each tree printed by Generator::equationCode with the C and the Python profile; one evaluation = one (tree, profile); the text is compared byte for byte with the model, '
-                        'compiled (gcc) / evaluated (python3) under %d valuations and compared with the MathML reference value' % (5 if chk.tier == 'quick' else 8, len(X.VALUATIONS)),
+                        'compiled (gcc) / evaluated (python3) under %d valuations and compared with the MathML reference value' % (5 if chk.tier == 'quick' else 7, len(X.VALUATIONS)),
                    samples=[X.show(trees[-1])[:300], (codes['C'][-1] or '')[:300], (codes['PY'][-1] or '')[:300]],
                    traces_validated_against_impl=2 * len(trees) - len(disagree), exhaustive=False,
                    outcome_histogram=hist, parent_child_edges_covered=len(edges), node_types_covered=len(types),
